@@ -19,7 +19,7 @@ BASE_MIX = [
 N_WORLDS = {"quick": 320, "thorough": 7000}
 # direct-drive simulations with the chaos policy (vmon/direct.py): multi-timestamp graphs, hostile decisions
 N_DIRECT = {"quick": 480, "thorough": 12000}
-DIRECT_PIDS = ("C01", "C02", "C03", "C05")
+DIRECT_PIDS = ("C01", "C02", "C03", "C05", "C06")
 
 RULES = {
     "C01": ("a world in which at some instant >=2 tasks were co-resident on one worker, or a placement was "
@@ -210,7 +210,11 @@ class E2ECheck:
         if p == "C05":
             return [("terminated runs", tot.get("ev_SIMULATOR_END", 0), 200)]
         if p == "C06":
-            return [("task state transitions", tot.get("transitions", 0), 3000), ("cancellations", tot.get("cancels", 0), 100)]
+            return [("task state transitions", tot.get("transitions", 0), 3000), ("cancellations", tot.get("cancels", 0), 100),
+                    ("direct-drive transitions under the chaos policy", tot.get("direct_transitions", 0), 3000),
+                    ("unschedule fall-backs judged (e2e + direct)", tot.get("unschedule_fallbacks_checked", 0) + tot.get("direct_unschedule_fallbacks_checked", 0), 100),
+                    ("direct-drive re-plans of an already scheduled task", tot.get("direct_replans_of_scheduled_task", 0), 100),
+                    ("direct-drive cancellations by the chaos policy", tot.get("direct_cancels", 0), 50)]
         if p == "C07":
             return [("conditional completions", tot.get("conditional_completions", 0), 100),
                     ("conditional blocks judged at end", tot.get("cond_blocks_checked", 0), 100)]
